@@ -4,7 +4,7 @@ the sources and write `lean/MidnightZK/Gen/C17Consts.lean`:
 
 * `proofs/src/plonk/mod.rs`: the VK `VERSION` byte, the BLAKE2b personalisation and digest
   length of `VerifyingKey::from_parts`, the header constant of `bytes_length`;
-* `curves/src/bls12_381/fq.rs`: MODULUS, S, ROOT_OF_UNITY, ROOT_OF_UNITY_INV, TWO_INV, DELTA, R
+* `curves/src/bls12_381/fq.rs`: MODULUS, S, ROOT_OF_UNITY, ROOT_OF_UNITY_INV, TWO_INV, DELTA, R, ZETA
   (Montgomery limbs as written in the source);
 * `curves/src/bls12_381/g1.rs` / `g2.rs`: compressed sizes;
 * `zk_stdlib/src/lib.rs`: `ZKSTD_VERSION`, the field order of `ZkStdLibArch` (= its bincode
@@ -103,6 +103,7 @@ def main():
         "twoInv": limbs_after(fq, r"const TWO_INV: Fq = Fq\(blst_fr \{", 4, "TWO_INV"),
         "delta": limbs_after(fq, r"const DELTA: Fq = Fq\(blst_fr \{", 4, "DELTA"),
         "montR": limbs_after(fq, r"const R: Fq = Fq\(blst_fr \{", 4, "R"),
+        "zeta": limbs_after(fq, r"const ZETA: Self = Fq\(blst_fr \{", 4, "ZETA"),
     }
     if r % 2 == 0:
         die("even modulus")
